@@ -655,6 +655,52 @@ func Core() []*Program {
 		"a":   {Deps: []CallSite{dep("n:x")}, Cmds: []Cmd{sh(0)}},
 		"n:x": {Cmds: []Cmd{sh(3), sh(0)}},
 	}), "n"))
+	// the slot discipline around everything that waits for another task: deferred task calls, calls in loops,
+	// skipped (up-to-date / other platform / failed precondition) tasks, failures, all under small limits
+	dc := func(t, v string) Cmd { return Cmd{K: "dcall", CS: &CallSite{Task: t, V: v}} }
+	add(mk("limit1-defer-call", 1, []string{"a", "b"}, map[string]*Task{
+		"a": {Cmds: []Cmd{dc("b", ""), sh(0)}},
+		"b": {Cmds: []Cmd{sh(0)}},
+	}))
+	add(mk("limit1-defer-call-fail", 1, []string{"a", "b", "c"}, map[string]*Task{
+		"a": {Cmds: []Cmd{dc("b", ""), {K: "dsh"}, sh(3)}},
+		"b": {Cmds: []Cmd{dc("c", ""), sh(0)}},
+		"c": {Cmds: []Cmd{sh(0)}},
+	}))
+	add(mk("limit2-two-defer-calls", 2, []string{"a", "b", "c", "d"}, map[string]*Task{
+		"a": {Deps: []CallSite{dep("b"), dep("c")}, Cmds: []Cmd{sh(0)}},
+		"b": {Cmds: []Cmd{dc("d", "one"), sh(0)}},
+		"c": {Cmds: []Cmd{dc("d", "two"), sh(0)}},
+		"d": {Cmds: []Cmd{sh(0)}},
+	}))
+	add(mk("limit2-defer-call-once", 2, []string{"a", "b", "c", "d"}, map[string]*Task{
+		"a": {Deps: []CallSite{dep("b"), dep("c")}, Cmds: []Cmd{sh(0)}},
+		"b": {Cmds: []Cmd{dc("d", ""), sh(0)}},
+		"c": {Cmds: []Cmd{dc("d", ""), sh(0)}},
+		"d": {Run: "once", Cmds: []Cmd{sh(0)}},
+	}))
+	add(mk("limit1-skipped-tasks", 1, []string{"a", "b", "c", "d"}, map[string]*Task{
+		"a": {Deps: []CallSite{dep("b")}, Cmds: []Cmd{call("c", ""), call("b", ""), dc("c", ""), sh(0)}},
+		"b": {Guard: "uptodate", Cmds: []Cmd{sh(0)}},
+		"c": {Guard: "platform", Cmds: []Cmd{sh(0)}},
+		"d": {Cmds: []Cmd{sh(0)}},
+	}))
+	add(mk("limit1-precond-in-call", 1, []string{"a", "b", "c"}, map[string]*Task{
+		"a": {Ign: true, Cmds: []Cmd{call("b", ""), call("c", ""), sh(0)}},
+		"b": {Guard: "precond", Cmds: []Cmd{sh(0)}},
+		"c": {Cmds: []Cmd{sh(0)}},
+	}))
+	add(mk("limit1-for-calls", 1, []string{"a", "b", "c"}, map[string]*Task{
+		"a": {Cmds: []Cmd{{K: "call", CS: &CallSite{Task: "b", For: []string{"one", "two", "x"}}}, sh(0)}},
+		"b": {Cmds: []Cmd{call("c", "$"), sh(0)}},
+		"c": {Cmds: []Cmd{sh(0)}},
+	}))
+	add(mk("limit2-fail-in-call", 2, []string{"a", "b", "c", "d"}, map[string]*Task{
+		"a": {Deps: []CallSite{dep("b"), dep("c")}, Cmds: []Cmd{sh(0)}},
+		"b": {Ign: true, Cmds: []Cmd{call("d", "one"), call("d", "two"), sh(0)}},
+		"c": {Cmds: []Cmd{call("d", "x"), sh(0)}},
+		"d": {Cmds: []Cmd{{K: "dsh"}, sh(3)}},
+	}))
 	// two roots, sequential and parallel
 	for _, par := range []bool{false, true} {
 		p := mk(fmt.Sprintf("two-roots-par%v", par), 2, []string{"a", "b", "c"}, map[string]*Task{
